@@ -264,6 +264,11 @@ class System:
         # no asynchronous removal of subscriptions while requests are judged
         for mgr in pair.provider._subscriptions_managers.values():  # noqa: SLF001
             mgr._run_housekeeping_thread = False  # noqa: SLF001
+        # no autonomous device activity either (the tutorial role provider re-checks alert systems every second)
+        for product in pair.provider.product_lookup.values():
+            for role in getattr(product, '_ordered_role_providers', []):
+                if hasattr(role, '_stop_worker'):
+                    role._stop_worker.set()  # noqa: SLF001
         self._spy_reader(pair.provider.msg_reader, 'provider')
         self._spy_reader(pair.consumer.msg_reader, 'consumer')
         for inst in pair.provider._hosted_service_dispatcher._instances.values():  # noqa: SLF001
@@ -961,6 +966,16 @@ def classify_body(body, tpl: Template, status: int) -> tuple[str, str]:
     return ('proper', tag) if tpl.resp_tag == tag else ('soap_other', tag)
 
 
+def _where(ex) -> str:
+    """Innermost function of sdc11073 on the traceback of an escaped exception: 'module.function'."""
+    import traceback
+    where = ''
+    for fr in traceback.extract_tb(ex.__traceback__):
+        if 'sdc11073' in fr.filename:
+            where = os.path.splitext(os.path.basename(fr.filename))[0] + '.' + fr.name
+    return where
+
+
 def _marker_in_tree(root) -> bool:
     for el in root.iter():
         if not isinstance(el.tag, str):
@@ -1049,6 +1064,7 @@ class Executor:
         except Exception as ex:  # noqa: BLE001  (socketserver would print a traceback and drop the connection)
             info['escaped'] = type(ex).__name__
             info['detail'] = str(ex)[:200]
+            info['where'] = _where(ex)
         info['unbounded'] = bool(sock.rfile.unbounded)
         info['reads'] = sock.rfile.calls
         info['raw_response'] = bytes(sock.out)
@@ -1066,6 +1082,7 @@ class Executor:
         except Exception as ex:  # noqa: BLE001
             info['escaped'] = type(ex).__name__
             info['detail'] = str(ex)[:200]
+            info['where'] = _where(ex)
         return info
 
     def state(self, endpoint):
@@ -1093,7 +1110,7 @@ class Executor:
         elapsed = time.perf_counter() - t0
         actual = {'status': 0, 'body': 'none', 'escaped': 'none', 'spin': False, 'timeout': False,
                   'unbounded_read': False, 'expanded': False, 'resolver_calls': 0, 'socket_attempts': 0,
-                  'state_same': True, 'handled': False, 'validated': False, 'detail': '',
+                  'state_same': True, 'handled': False, 'validated': False, 'detail': '', 'where': '',
                   'ms': int(elapsed * 1000)}
         if how == 'timeout':
             actual['timeout'] = True
@@ -1105,6 +1122,7 @@ class Executor:
         quiet = sysm.quiesce()
         events = list(sysm.events)
         actual['escaped'] = info['escaped']
+        actual['where'] = info.get('where', '')
         actual['spin'] = info['spin']
         actual['detail'] = info['detail']
         actual['unbounded_read'] = info['unbounded']
